@@ -70,7 +70,7 @@ func main() {
 	for i, d := range directed() {
 		d := d
 		id := uint64(i)
-		spawn(func() { runDirected(bases, d, r.Fork(1000+id), id, res, pool, v) })
+		spawn(func() { runDirected(bases, far, d, r.Fork(1000+id), id, res, pool, v) })
 	}
 	spawn(func() { runExhaustive(res, pool, v, r.Fork(4242)) })
 	if far != nil {
